@@ -46,6 +46,7 @@ func (g *gen) genC05() {
 	c := g.c
 	g.genSet(g.n(1, 3), g.n(1, 3), 1+g.r.Intn(2), false)
 	g.emitDefs(g.chance(0.3))
+	g.setOptions()
 	sets := []int{0}
 	if g.chance(0.3) {
 		c.Defs = append(c.Defs, Op{ID: g.id(), Kind: opClone, Set: 0, New: 1})
@@ -95,6 +96,7 @@ func (g *gen) genC06() {
 	}
 	g.genSet(g.n(2, 3), g.n(2, 3), nbad, false)
 	g.emitDefs(g.chance(0.25))
+	g.setOptions()
 	names := g.allNames()
 	nops := g.n(3, 7)
 	var ops []Op
@@ -212,6 +214,22 @@ func (g *gen) genC08() {
 	g.schedule(ntasks)
 }
 
+// setOptions: now and then the set has non-default settings (they are part of
+// its definitions: twins replay them).
+func (g *gen) setOptions() {
+	c := g.c
+	var extra []Op
+	if g.chance(0.10) {
+		extra = append(extra, Op{ID: g.id(), Kind: opOption, Set: 0, Text: g.pick([]string{"missingkey=error", "missingkey=zero"})})
+	}
+	if g.chance(0.04) {
+		extra = append(extra, Op{ID: g.id(), Kind: opCSP, Set: 0})
+	}
+	if len(extra) > 0 && len(c.Defs) > 0 {
+		c.Defs = append(append([]Op{c.Defs[0]}, extra...), c.Defs[1:]...)
+	}
+}
+
 func (g *gen) maybeName(names []string) string {
 	if g.chance(0.5) {
 		return ""
@@ -265,6 +283,7 @@ func (g *gen) genC09() {
 	}
 	g.genSet(g.n(2, 3), g.n(3, 3), nbad, false)
 	g.emitDefs(false)
+	g.setOptions()
 	names := g.allNames()
 	ntasks := 2 + g.r.Intn(3)
 	if g.big {
